@@ -892,10 +892,9 @@ func (l *lexer) print(w ast.Word) string {
 
 func (l *lexer) scanToken() int {
 	var blank bool
-	if len(l.aliases) != 0 {
-		if a := l.aliases[len(l.aliases)-1]; a.value.Len() == 0 {
-			blank = a.blank
-		}
+	for i := len(l.aliases) - 1; i >= 0 && l.aliases[i].value.Len() == 0; i-- {
+		// every alias that ends here
+		blank = blank || l.aliases[i].blank
 	}
 Scan:
 	tok := l.scanRawToken()
